@@ -86,6 +86,19 @@ func main() {
 			emit("mark %s", toks[1])
 			continue
 		}
+		if toks[0] == "alignsec" && len(toks) == 2 {
+			// alignsec <ms>: sleep until the wall clock stands <ms> milliseconds into a second (engines that keep
+			// deadlines in whole seconds behave differently just before a second boundary)
+			want := time.Duration(atoi(toks[1])) * time.Millisecond
+			now := time.Duration(time.Now().Nanosecond())
+			d := want - now
+			if d < 0 {
+				d += time.Second
+			}
+			time.Sleep(d)
+			emit("alignsec %s", toks[1])
+			continue
+		}
 		if toks[0] == "since" && len(toks) == 2 {
 			emit("since %s %d", toks[1], time.Since(marks[toks[1]]).Milliseconds())
 			continue
